@@ -43,7 +43,7 @@ func (a jsonMultiset) hashCode(metadata []Metadata) [8]byte {
 		h = append(h, v.hashCode(metadata))
 	}
 	sort.Sort(h)
-	b := make([]byte, 0, len(a)*8)
+	b := []byte{0xD1, 0x48, 0x0B, 0xE2, 0x75, 0x9C, 0x33, 0xA6} // random bytes
 	for _, c := range h {
 		b = append(b, c[:]...)
 	}
